@@ -55,7 +55,11 @@ RULE = (
     "rules, rate bins, multi-locus; then constant / bounded / independent / edge- and clade-scoped rules, motif "
     "probs, names, a few optimiser evaluations) and SequenceLikelihoodFunction; app results (generic, tabular, "
     "model, model_collection, hypothesis, bootstrap) and NotCompleted (direct and produced by apps). Non-trivial = "
-    "the object's history has >=1 view/mutation step (for models: non-default construction options); distinct = "
+    "the object's history has >=1 view/mutation step (for models: non-default construction options); unusual-but-"
+    "legal values are part of every generator (asymmetric DistanceMatrix cells written one direction at a time, "
+    "tree / taxon / sequence / row names with an internal blank or punctuation incl. reassign_names, numeric-"
+    "looking and look-alike labels, non-string table index values, mixed-type columns, a parameter constant on "
+    "some edges and bounded on the others); distinct = "
     "(type, last <=4 history op kinds, channel)."
 )
 LEVEL_TEXT = (
